@@ -300,7 +300,7 @@ APPEND = {
     "C13": "Cleaned-data delta entry point; full-range int8 / int16 counts incl. the most negative count in the power-law events; joint scaling exact to the relative floor. Units down to 1e-290; call history on the same record with other cut-offs, reference amplitudes and exponents.",
     "C14": "Exactly band-limited records of whole-number counts held as int64 / int32 / int16 (Fourier resample) and integer-typed records in the interpolation events; decimation ratios 49 .. 187; whole-period clause.",
     "C15": "Dominant-frequency trace also in extreme units (2^-560, 2^515). Both implementations on the same array in either order; lengths whose half is m*2^e or one more through both implementations.",
-    "C16": "Empty and blanks-only labels, padded and non-ASCII labels, multipliers 0.01 .. 9.81 and negative. Loader history (load, overwrite what was returned, load again); whole-number records incl. multiples of 10, 100, 1000.",
+    "C16": "Empty and blanks-only labels, padded and non-ASCII labels, multipliers 0.01 .. 9.81 and negative. Loader history (load, overwrite what was returned, load again); whole-number records incl. multiples of 10, 100, 1000. Histories as a state machine (FileStore.tla: what every path currently holds; Save / Load / Scribble): 100 / 600 -simulate behaviours of 12 / 18 operations over 2 paths x 3 contents replayed on real files through the ten entry points, every load validated by Trace_FileStore against the file the model holds.",
     "C17": "Adders on full-range int8 / uint8 / int16 / uint16 / int32 records with whole-number constants, count series and count signals (AddElementwise); integer record = float record for the filter; 20001-sample degree-4 detrend. A call on another record just before with corners a few 1e-2 .. 1e-4 away (each call designs the filter for its own corners).",
     "C18": "The cluster object as a state machine (ClusterObj.tla): MC_ClusterObj generates every interleaving of set_master / time_match / same_start / component add_constant / component replacement (two operations deep from 3 / 14 exact clusters, k = 2..4) with the model properties AlignedAfterSameStart, AlignKeepsMaster, LagIsMinimiser, SameStartIdempotent, and every transition is executed on a real Cluster built in that state (successor must be one of the model's); 40 / 400 -simulate behaviours of 9 / 14 operations replayed on one object each; 14 / 90 sessions on real float clusters validated by Trace_ClusterObj, which carries the model state from event to event. master_index reassigned after construction; records on levels up to 1e8 (level / change up to 1e9); narrow-integer clusters; windows of all four kinds inside the record. Re-scan after the components were changed through the public API.",
     "C19": "get_time_shift_motions of every energy event against the acceleration series of the definition (ShiftedWaveDefinition); start=True rows must be the start=False rows delayed by a whole number of samples within one of (stt - tt)/dt; records as int8 / int16 / int32 / uint8 / float32 with whole-number reduction factors as python / numpy integers.",
@@ -316,6 +316,7 @@ EXTRA_ENGINES = {
     "SignalObj": ["C04"],
     "Ownership": ["C05"],
     "ClusterObj": ["C04", "C18"],
+    "FileStore": ["C16"],
     "Spectra": ["C03"],
 }
 
